@@ -339,7 +339,7 @@ fn stress(seed: u64, j: usize, readers: usize, millis: u64, mode: u64) -> Outcom
 
 pub fn run(tier: Tier, seed: u64, only: Option<usize>) -> i32 {
     let mut rep = Report::new("C20", "exploration", tier, seed);
-    rep.rule = "run = one real tracer (real RwLock<State>, real Strategy over the simulated world in virtual time, 10 ms rounds, Paris/Dublin cells register flows) on its own OS thread + R in {1,4,12} reader threads calling Tracer::snapshot() in a loop + one thread calling Tracer::clear() every 0.2..20 ms, for 1 s (thorough 20 s) of wall time per run; every operation is stamped from one atomic counter before the call and after the return, the publish callback stamps and copies every round; failpoints between the default-flow and per-flow update and around the lock scopes yield / sleep at random; offline, every snapshot reporting n rounds with latest id b must hash (all getters of all flows, floats by bit pattern) to the state obtained by applying rounds b-n+1..=b to an empty State with the real single-threaded code, and the stamps must allow that linearisation (not stale, not from the future, missing prefix explained by a clear, no clear entirely between); runs execute one at a time (they use all cores themselves); non-trivial = at least one snapshot overlapped the application of a round and at least one followed a clear".into();
+    rep.rule = "run = one real tracer (real RwLock<State>, real Strategy over the simulated world in virtual time, 10 ms rounds, Paris/Dublin cells register flows) on its own OS thread + R in {1,4,12} reader threads calling Tracer::snapshot() in a loop + one thread calling Tracer::clear() every 0.2..20 ms, for 0.7 s (thorough 8 s) of wall time per run; every operation is stamped from one atomic counter before the call and after the return, the publish callback stamps and copies every round; failpoints between the default-flow and per-flow update and around the lock scopes yield / sleep at random; offline, every snapshot reporting n rounds with latest id b must hash (all getters of all flows, floats by bit pattern) to the state obtained by applying rounds b-n+1..=b to an empty State with the real single-threaded code, and the stamps must allow that linearisation (not stale, not from the future, missing prefix explained by a clear, no clear entirely between); runs execute one at a time (they use all cores themselves); non-trivial = at least one snapshot overlapped the application of a round and at least one followed a clear".into();
     rep.assumptions = vec![
         "application intervals of rounds are bracketed by the publish callback stamps of rounds k-1 and k (conservative: can only make the checker more permissive)".into(),
         "interleavings come from the OS scheduler on 16 cores plus the failpoint delays; coverage is reported as counts of snapshots that overlapped a round application / followed a clear".into(),
